@@ -35,7 +35,17 @@ THEME8 = ("This round targets the CORNERS of the quantified domain and the less-
           "a command fails, an extra file, the order of names in __all__, blank lines and trailing newline of a rewritten file, a "
           "message instead of an error). Think like a maintainer: a quick fix for an unrelated issue, a tidy-up, a changed default. "
           "Use a file AND function none of the earlier changes is in. Earlier rounds asked for the following, all still welcome: ")
-theme = THEME8 if rnd == "8" else THEME5 if rnd == "5" else (THEME6 if rnd == "6" else (THEME7 if rnd == "7" else ""))
+THEME9 = ("This round is about SILENT DEGRADATION. The regression must NOT raise, crash, hang or produce invalid output: everything the "
+          "tool writes stays valid, plausible and well-formed - but is subtly wrong for a minority of inputs: a dropped or duplicated "
+          "entry, two neighbours swapped, an off-by-one index or slice, a description truncated or merged with the next one, a default "
+          "attached to the neighbouring parameter, a type widened or narrowed, a member of a list lost, a line written twice, the wrong "
+          "one of two similar things picked. Prefer POSITIONAL slips (the first or the last element, adjacent pairs, even versus odd "
+          "counts, the entry after an entry without default, the second of two similar names, the element after an empty one) and "
+          "slips in how two sources of the same fact are MERGED (docstring versus signature, annotation versus default, existing "
+          "target versus truth). Think like a maintainer: a tidy-up, a comprehension rewritten, zip versus zip_longest, enumerate "
+          "start, a sort added or removed, `or` versus `if ... is None`, dict.update order, a slice bound. Use a file AND function none "
+          "of the earlier changes is in. Earlier rounds asked for the following, all still welcome: ")
+theme = THEME9 if rnd == "9" else THEME8 if rnd == "8" else THEME5 if rnd == "5" else (THEME6 if rnd == "6" else (THEME7 if rnd == "7" else ""))
 out = "/tmp/wt/prompts%s" % rnd
 os.makedirs(out, exist_ok=True)
 tpl = open("/tmp/wt/prompts3/C01.txt").read()
